@@ -279,10 +279,10 @@ func runTableAt(delim string, samples []string, cp checkAt) (res result) {
 			if !cp.at(i+1, len(samples)) {
 				return nil
 			}
-			f := checkTable(impl, ref, &where, &res.state, true)
+			f := checkTable(impl, ref, &where, &res.state, allTotals)
 			if f != nil && refDefect != nil && !strings.Contains(f.sig, "/panic/") {
 				var dummy string
-				if checkTable(impl, refDefect, &where, &dummy, true) == nil {
+				if checkTable(impl, refDefect, &where, &dummy, allTotals) == nil {
 					return failf("C07/table/multi-byte-delim/token-keeps-delimiter-tail",
 						"with the %d-byte delimiter %q the table equals the fold of a splitter that advances 1 byte after a delimiter (keys keep the delimiter's tail)\nfirst difference from the specification: %s [%s]", len(delim), delim, f.detail, f.sig)
 				}
@@ -306,10 +306,66 @@ func runTableAt(delim string, samples []string, cp checkAt) (res result) {
 	return
 }
 
-// checkTable compares every accessor with the reference. totals=false skips
-// the row/column/grand totals (used after Trim, where the statement does not
-// say whether totals are recomputed).
-func checkTable(impl *aggregation.TableAggregator, ref *refTable, where *string, state *string, totals bool) *fail {
+// totalsScope says which of the redundant totals (S2 "row/column/grand totals
+// equal to the sums of their cells") are compared.
+//
+// Without a Trim: all of them. After a Trim the statement does not say whether
+// the totals of a row or column that LOST a cell are recomputed (the unchanged
+// implementation keeps the pre-trim total of a surviving row/column), so those
+// - and only those - are exempt: a row or column from which no Trim ever
+// removed a present cell since it was created (in particular one created after
+// a Trim, its key being absent from the table when it was sampled, also when a
+// Trim had removed a row/column of that name entirely before) is an ordinary
+// fold of its samples and its total must equal the sum of its cells; the grand
+// total must be exact when no listed column is exempt; and the value-sorted
+// views must put a non-exempt row/column with a larger total before a
+// non-exempt one with a smaller total (they are ordered by those totals).
+type totalsScope struct {
+	mode               int             // 0 none, 1 all, 2 all but the stale ones
+	staleRow, staleCol map[string]bool // mode 2: lost a present cell at a Trim and survived (or may have survived)
+	lateRow, lateCol   map[string]bool // mode 2: created after the first Trim (signature class only)
+}
+
+var (
+	allTotals = totalsScope{mode: 1}
+	noTotals  = totalsScope{}
+)
+
+func (t totalsScope) row(name string) (check bool, sig string) {
+	switch t.mode {
+	case 1:
+		return true, ""
+	case 2:
+		if t.staleRow[name] {
+			return false, ""
+		}
+		if t.lateRow[name] {
+			return true, "/row-created-after-trim"
+		}
+		return true, "/row-untouched-by-trim"
+	}
+	return false, ""
+}
+
+func (t totalsScope) col(name string) (check bool, sig string) {
+	switch t.mode {
+	case 1:
+		return true, ""
+	case 2:
+		if t.staleCol[name] {
+			return false, ""
+		}
+		if t.lateCol[name] {
+			return true, "/column-created-after-trim"
+		}
+		return true, "/column-untouched-by-trim"
+	}
+	return false, ""
+}
+
+// checkTable compares every accessor with the reference; tot selects the
+// row/column/grand totals that are compared (see totalsScope).
+func checkTable(impl *aggregation.TableAggregator, ref *refTable, where *string, state *string, tot totalsScope) *fail {
 	*where = "ParseErrors"
 	if g := impl.ParseErrors(); g != ref.errs {
 		return failf("C07/table/parse-errors-mismatch", "ParseErrors()=%d, fold gives %d", g, ref.errs)
@@ -359,23 +415,33 @@ func checkTable(impl *aggregation.TableAggregator, ref *refTable, where *string,
 			}
 			fmt.Fprintf(&sb, "%d,", r.Value(c))
 		}
-		if totals {
+		if ok, class := tot.row(r.Name()); ok {
 			*where = "TableRow.Sum"
 			if g, w := r.Sum(), ref.rowSum(r.Name()); g != w { // S2 row total
-				return failf("C07/table/row-total-mismatch", "Sum() of row %q is %d, its cells sum to %d", r.Name(), g, w)
+				return failf("C07/table/row-total-mismatch"+class, "Sum() of row %q is %d, its cells sum to %d", r.Name(), g, w)
 			}
 		}
 	}
-	if totals {
-		for _, c := range cols {
-			*where = "ColTotal"
-			if g, w := impl.ColTotal(c), ref.colSum(c); g != w { // S2 column total
-				return failf("C07/table/column-total-mismatch", "ColTotal(%q)=%d, its cells sum to %d", c, g, w)
-			}
+	grand := tot.mode != 0
+	for _, c := range cols {
+		ok, class := tot.col(c)
+		if !ok {
+			grand = false // Sum() adds up the column totals
+			continue
 		}
+		*where = "ColTotal"
+		if g, w := impl.ColTotal(c), ref.colSum(c); g != w { // S2 column total
+			return failf("C07/table/column-total-mismatch"+class, "ColTotal(%q)=%d, its cells sum to %d", c, g, w)
+		}
+	}
+	if grand {
 		*where = "Sum"
 		if g, w := impl.Sum(), ref.grand(); g != w { // S2 grand total
-			return failf("C07/table/grand-total-mismatch", "Sum()=%d, all cells sum to %d", g, w)
+			class := ""
+			if tot.mode == 2 {
+				class = "/no-column-lost-a-cell"
+			}
+			return failf("C07/table/grand-total-mismatch"+class, "Sum()=%d, all cells sum to %d", g, w)
 		}
 	}
 	*where = "ComputeMinMax"
@@ -404,17 +470,45 @@ func checkTable(impl *aggregation.TableAggregator, ref *refTable, where *string,
 		return failf("C07/table/ordered-rows-mismatch", "OrderedRows()=%q is not a reordering of Rows() %q", orn, names)
 	}
 	fmt.Fprintf(&sb, " |oc%q or%q", oc, orn)
-	if totals {
+	if tot.mode != 0 {
 		// value-ordered views use the totals; part of the state that must be order independent
 		vc := impl.OrderedColumns(sorting.NVValueSorter)
 		var vrn []string
 		for _, r := range impl.OrderedRows(sorting.NVValueSorter) {
 			vrn = append(vrn, r.Name())
 		}
-		fmt.Fprintf(&sb, " vc%q vr%q", vc, vrn)
+		if tot.mode == 1 {
+			fmt.Fprintf(&sb, " vc%q vr%q", vc, vrn)
+		} else {
+			// after a Trim: the rows/columns whose totals are claimed must be ordered by them
+			// ("value" = larger totals first; equal totals are not compared here)
+			if a, b, ok := valueOrderBroken(vrn, func(n string) (int64, bool) { c, _ := tot.row(n); return ref.rowSum(n), c }); ok {
+				return failf("C07/table/value-order-disagrees-with-cell-sums/rows", "OrderedRows(value)=%q puts row %q (cells sum to %d) before row %q (cells sum to %d); no Trim removed a cell of either row", vrn, a, ref.rowSum(a), b, ref.rowSum(b))
+			}
+			if a, b, ok := valueOrderBroken(vc, func(n string) (int64, bool) { c, _ := tot.col(n); return ref.colSum(n), c }); ok {
+				return failf("C07/table/value-order-disagrees-with-cell-sums/columns", "OrderedColumns(value)=%q puts column %q (cells sum to %d) before column %q (cells sum to %d); no Trim removed a cell of either column", vc, a, ref.colSum(a), b, ref.colSum(b))
+			}
+		}
 	}
 	*state = sb.String()
 	return nil
+}
+
+// valueOrderBroken: a pair of claimed names in the value-sorted view of which
+// the earlier has the smaller total.
+func valueOrderBroken(order []string, total func(string) (int64, bool)) (first, second string, broken bool) {
+	for i, a := range order {
+		va, ok := total(a)
+		if !ok {
+			continue
+		}
+		for _, b := range order[i+1:] {
+			if vb, ok := total(b); ok && va < vb {
+				return a, b, true
+			}
+		}
+	}
+	return "", "", false
 }
 
 func equalStrings(a, b []string) bool {
